@@ -193,11 +193,15 @@ pub fn property() -> Property {
                 100_000,
                 800_000,
                 |_| {
-                    prop_oneof![
+                    (prop_oneof![
                         3 => cases::exec_case(programs::structured(programs::StructCfg::default()), false).boxed(),
                         2 => cases::exec_case(programs::soup(30), true).boxed(),
                         3 => crate::props::c09::jump_case().boxed(),
-                    ]
+                    ], prop_oneof![9 => Just(false), 1 => Just(true)])
+                        .prop_map(|(mut c, halt)| {
+                            c.halt = halt;
+                            c
+                        })
                 },
                 oracle_exec,
             ),
